@@ -28,14 +28,19 @@ type AdmitJob struct {
 
 func admitJobs() []Job {
 	var out []Job
-	for _, k := range []string{"matrix-tls-off", "matrix-tls-on", "client", "redirect"} {
+	for _, k := range []string{"matrix-tls-off", "matrix-tls-on", "redirect"} {
 		out = append(out, Job{Admit: &AdmitJob{Kind: k}})
+	}
+	for _, row := range clientRows() {
+		out = append(out, Job{Admit: &AdmitJob{Kind: "client", Only: row}})
 	}
 	return out
 }
 
 func runAdmit(job AdmitJob) (out JobOut) {
 	out.Counts = map[string]int{}
+	t0 := time.Now()
+	defer func() { out.Counts["ms/admission/"+job.Kind] += int(time.Since(t0).Milliseconds()) }()
 	outcomes := map[string]bool{}
 	defer func() {
 		if r := recover(); r != nil {
@@ -352,31 +357,49 @@ func (t *tcpTap) reset() {
 	t.mu.Unlock()
 }
 
-// withHang runs f; when it does not return, virtual time is pushed past the client's timeouts once.
+// withHang runs f. While f has not returned, virtual time is moved on second by second (Env.Advance waits for
+// the library to be quiescent before every step), so that an operation that can only end through one of the
+// library's own timeouts does end; real time is only the final hang detector.
 func withHang(env *sysx.Env, f func() error) (error, bool) {
 	ch := make(chan error, 1)
 	go func() { ch <- f() }()
-	select {
-	case err := <-ch:
-		return err, true
-	case <-time.After(2 * time.Second):
-	}
-	for i := 0; i < 4; i++ {
-		env.Advance(15 * time.Second)
+	for i := 0; i < 90; i++ {
 		select {
 		case err := <-ch:
 			return err, true
-		case <-time.After(2 * time.Second):
+		default:
+		}
+		env.Advance(time.Second)
+	}
+	select {
+	case err := <-ch:
+		return err, true
+	case <-time.After(sysx.HangLimit):
+		return nil, false
+	}
+}
+
+func clientRowName(srvTLS bool, scheme, proto string) string {
+	return fmt.Sprintf("client/server-tls-%v/%s/%s", srvTLS, scheme, proto)
+}
+
+func clientRows() []string {
+	var out []string
+	for _, srvTLS := range []bool{false, true} {
+		for _, scheme := range []string{"rtsp", "rtsps"} {
+			for _, proto := range []string{"auto", "udp", "tcp"} {
+				out = append(out, clientRowName(srvTLS, scheme, proto))
+			}
 		}
 	}
-	return nil, false
+	return out
 }
 
 func (a *admit) clients() {
 	for _, srvTLS := range []bool{false, true} {
 		for _, scheme := range []string{"rtsp", "rtsps"} {
 			for _, proto := range []string{"auto", "udp", "tcp"} {
-				name := fmt.Sprintf("client/server-tls-%v/%s/%s", srvTLS, scheme, proto)
+				name := clientRowName(srvTLS, scheme, proto)
 				if a.skip(name) {
 					continue
 				}
